@@ -25,6 +25,24 @@ CHECKS = {
          "missing property or wrong column length at any position, and a refusal returns the database unchanged in every component. Tied to the code "
          "by histories with one injected fault per batch (kind x position) and full state dumps before/after.",
          "Trusted: Lean kernel; harness dumps; SciPy/NumPy primitives compared on every run.", "DESIGN.md section 7 (C16)"),
+ "C06": ("Lean 4 theorems relating the three metric routes to the definitions (generated ratio expressions, merge-kernel induction) + differential correspondence",
+         "Machine-checked theorems (Props/C06.lean) about the model of fprint_metrics / array_metrics (ratio expressions regenerated from the source; the sparse "
+         "Soergel kernel as the two-pointer merge it is): each route equals the definition, zero denominators score 0, symmetry, range, Soergel = Tanimoto on binary data. "
+         "Tied to the code by evaluating five measures x eleven calling forms (fp/fp, fp/db, db/fp, db/db, single, fprint_metrics, dense, CSR canonical / shuffled / explicit zeros, assume_binary) "
+         "on seeded operand pairs and comparing with the model's exact rationals (or num/sqrt(rad)).",
+         "Trusted: Lean kernel; extract.py; SciPy sparse product/norms, np.corrcoef, cdist, nan_to_num, Numba's compilation of the kernels enter as their meaning and are compared on every run; float results compared to 1e-9.",
+         "DESIGN.md section 6 (C06)"),
+ "C08": ("Lean 4 round-trip / key-set theorems on the database model (generated npz key table) + differential correspondence",
+         "Machine-checked theorems (Props/C08.lean): the npz key set written equals the one read, no reserved key carries the property prefix and stripping inverts prefixing "
+         "(decided over the table regenerated from db.py), pickle and savez/load are the identity on databases satisfying the invariant and idempotent. Tied to the code by "
+         "savez/load and save/load cycles (1-3) on seeded databases compared field by field, and savetxt output parsed line by line.",
+         "Trusted: Lean kernel; extract.py; NumPy npz (de)serialisation, pickle, gzip/bz2/smart_open compared on every run. Names ending in NUL are outside (NumPy U dtype strips them).",
+         "DESIGN.md section 6 (C08)"),
+ "C17": ("Lean 4 theorems on conversions between kinds + differential correspondence",
+         "Machine-checked theorems (Props/C17.lean) on fromFingerprint / Db.asType: support preserved in all six directions, values preserved where representable; bit and count fingerprints "
+         "built from the same identifier list have the same support and the counts are multiplicities. Tied to the code by converting generated and derived (a-b) fingerprints and whole databases in every direction.",
+         "Trusted: Lean kernel; NumPy astype casts compared on every run. Negative counts (a-b with b>a) are outside the quantifier (documented class invariant: counts > 0).",
+         "DESIGN.md section 7 (C17)"),
  "C09": ("Lean 4 theorems on the equality model + differential correspondence",
          "Machine-checked theorems (Props/C09.lean): == decides content equality on the model of Fingerprint.__eq__/CountFingerprint.__eq__ "
          "(hence reflexive, symmetric, transitive, != its negation, never an error within a kind family); copies equal. Tied to the code "
